@@ -220,6 +220,13 @@ def src(e):
         if e[3] is not None:
             s += " else %s" % stm_block(e[3])
         return s
+    if k == "ifx":
+        # `if c a else b` with BARE expressions as branches (no braces): the grammar's `body` may be an expression
+        def bare(x):
+            t = operand(x)
+            # after a condition, a branch that starts with `(` would read as a call of the condition: brace it
+            return "{ %s }" % src(x) if t.startswith("(") else t
+        return "if %s %s else %s" % (cond_operand(e[1]), bare(e[2]), bare(e[3]))
     if k == "ifset":
         s = "if %s: %s = %s %s" % (e[1], T.src(e[2]), cond_operand(e[3]), stm_block(e[4]))
         if e[5] is not None:
@@ -322,6 +329,8 @@ def sx(e):
         return "(block%s)" % "".join(" " + sx(s) for s in e[1])
     if k == "if":
         return "(if %s %s%s)" % (sx(e[1]), sx(as_block(e[2])), "" if e[3] is None else " " + sx(as_block(e[3])))
+    if k == "ifx":
+        return "(if %s %s %s)" % (sx(e[1]), sx(e[2]), sx(e[3]))
     if k == "ifset":
         return "(ifset %s %s %s %s%s)" % (e[1], T.canon(e[2]), sx(e[3]), sx(as_block(e[4])),
                                           "" if e[5] is None else " " + sx(as_block(e[5])))
